@@ -322,6 +322,8 @@ class Evaluator(Folder):
                 cur = self.env.get("__current_exception__")
                 if isinstance(cur, AExc):
                     exc_obj, name = cur, cur.cls_name
+                elif isinstance(cur, AObj):
+                    exc_obj, name = cur, cur._cls_.name  # an exception *instance* of the repository (made by a call, raised later)
             else:
                 if isinstance(st.exc, ast.Name) and isinstance(self.env.get(st.exc.id), AExc):
                     exc_obj = self.env[st.exc.id]
